@@ -186,7 +186,17 @@ class C07(Check):
                 self.violated("G7", MOD, fname, "free-parameters", calls[0], f"{lang} back end does not forward / declare the free parameters")
         pops = [s for s in body if isinstance(s, ast.If) and norm(s.test) == "free_parameters is not None" and ("parameters.pop(key)" in norm(s) or "del parameters[key]" in norm(s))]
         emit_p = [i for i, s in enumerate(body) if isinstance(s, ast.If) and norm(s.test) in ("len(parameters) > 0", "parameters", "len(parameters) != 0")]
-        if pops and emit_p and body.index(pops[0]) < emit_p[0]:
+        # nothing may put names back into `parameters` after the free ones were removed
+        refill = [i for i, s_ in enumerate(body) if pops and body.index(pops[0]) < i < (emit_p[0] if emit_p else len(body)) and any(
+            (isinstance(x, ast.Assign) and isinstance(x.targets[0], ast.Subscript) and norm(x.targets[0].value) == "parameters")
+            or (isinstance(x, ast.AugAssign) and norm(x.target) == "parameters")
+            or (isinstance(x, ast.Assign) and norm(x.targets[0]) == "parameters")
+            or (isinstance(x, ast.Call) and norm(x.func) in ("parameters.update", "parameters.setdefault")) for x in ast.walk(s_))]
+        if refill:
+            self.violated("G7", MOD, GEN, "free-parameters-not-assigned", body[refill[0]],
+                          f"`{norm(body[refill[0]])[:70]}` fills `parameters` again after the free parameters were removed: they are assigned inside the generated function and shadow the extra inputs",
+                          witness="generate_model_code_py(m, free_parameters=['k1']): the body assigns k1 = <model value>, the argument is ignored")
+        elif pops and emit_p and body.index(pops[0]) < emit_p[0]:
             self.holds("G7", MOD, GEN, "free-parameters-not-assigned", pops[0], "free parameters are removed before the parameter assignments are emitted")
         else:
             self.violated("G7", MOD, GEN, "free-parameters-not-assigned", gen, "free parameters are still assigned inside the generated function (shadowing the extra inputs)")
